@@ -24,6 +24,7 @@ def check(run):
                                 'resolver exactly once (induction); Kani: built-in tables and the import-free resolver; native sweep of 67 references confirms counterexamples.')
     ksupport.decide(run, 'C05', SPECS, {'c05': native.sweep_c05})
     resolver_obligations(run)
+    scope_obligation(run)
     # every type node, at any depth, reaches the resolver exactly once: engine T on walk_types_mut + the closure resolve_types hands to it
     import c15
     c15.check(run, which=('step_types_mut', 'deep_types_mut', 'outer_types_mut'), native_bad=native.sweep_c05()[1])
@@ -38,11 +39,29 @@ def check(run):
         run.inconclusive('resolve_types closure', 'T', str(e))
 
 
+def scope_obligation(run):
+    """the scope resolve_type works with is the file's own: import / forward-declaration sets = qualified names of its own statements"""
+    import pipeline
+    title = ('the import and forward-declaration sets handed to resolve_types are exactly the qualified names of the file\'s own import / parcelable statements '
+             '(collected from the tree being resolved, not modified afterwards)')
+    try:
+        ok, n, bad = pipeline.scope_facts(mir.Program(mir.dump_mir()))
+    except mir.Unsupported as e:
+        run.inconclusive(title, 'M', str(e)); return
+    if ok:
+        run.holds(title, 'M', queries=n, bound='all %d feasible CFG paths of the per-file closure that reach resolve_types' % n)
+    else:
+        nb = native.sweep_c05()[1]
+        run.violated(title, 'M', 'scope:sets-not-own-statements', {'detail': bad[:3], 'native': nb[:2]}, bool(nb), detail=bad[0])
+
+
 _S = None
 
 
 def _rc_task(cfg):
     import resolvecheck as rc
+    import tmir, time
+    tmir.DEADLINE[0] = time.time() + 900      # wall-clock cap per configuration: exceeding it is inconclusive, never a verdict
     try:
         np, nq, viol = rc.run(_S, *cfg)
         return cfg, np, nq, viol, None
